@@ -439,6 +439,9 @@ def _layout_of(tl):
             "layer": n.layerIndex, "w": n.w, "h": n.h, "x": n.x, "y": n.y, "dx": n.dx, "dy": n.dy,
             "text": n.data.text, "textex": uni2tex(n.data.text) if n.data.text else None,
             "stub": n.isStub(),
+            # the layer each hop of the path was laid out in (set by the engine for
+            # every item of every layer): hop k must be the datum's stub of layer k
+            "hop_layers": [h.layerIndex for h in hops],
         })
     sc = tl.options["scale"]
     fmt = sc.tickFormat()
@@ -1358,6 +1361,10 @@ def oracle_c07(case, io):
                     return "%s: link %d is not continuous at step %d" % (backend, i, j)
             kinds = "".join(s[0] for s in segs)
             chain = lay[i]["chain"]
+            hl = lay[i].get("hop_layers")
+            if hl is not None and hl != list(range(len(chain))):
+                return ("%s: link %d does not pass through the datum's stubs layer by layer: its hops were laid out in "
+                        "layers %r" % (backend, i, hl))
             if kinds != "CL" * (len(chain) - 1) + "C":
                 return "%s: link %d has steps %s for %d stubs" % (backend, i, kinds, len(chain) - 1)
             prev_cross = 0.0
